@@ -2487,6 +2487,9 @@ class Transport(threading.Thread, ClosingContextManager):
                     if not k.startswith(mp_required_prefix)
                 ]
                 self.get_security_options().kex = pkex
+                # ... and must not offer it either: what is advertised and
+                # what _parse_kex_init will select from are the same list
+                kex_algos = list(self.preferred_kex)
             available_server_keys = list(
                 filter(
                     list(self.server_key_dict.keys()).__contains__,
